@@ -57,7 +57,7 @@ func runC20(c *Ctx) {
 				"terminates: "+kind, "no ranking argument recognised for this loop (range loop, counted loop, budget counter, decremented field): a seek or read could loop forever")
 		}
 	}
-	r.Floor("C20-D1", "loops-in-file-readers", nLoops, 7)
+	r.Floor("C20-D1", "loops-in-file-readers", nLoops, 4)
 
 	// D2: validateQLogLineIdx
 	vf := p.Fn("(*querylog.qLogFile).validateQLogLineIdx")
@@ -295,6 +295,18 @@ func c20Windows(c *Ctx) {
 							gt = append(gt, k)
 						case token.SUB:
 							sub = append(sub, k)
+							// `max(position-K, 0)` is the bound test and the offset in one
+							for _, u := range core.Users(x) {
+								if mc, isCall := u.(*ssa.Call); isCall {
+									if bi, isB := mc.Call.Value.(*ssa.Builtin); isB && bi.Name() == "max" && len(mc.Call.Args) == 2 {
+										for _, a := range mc.Call.Args {
+											if z, isC := core.ConstInt(a); isC && z == 0 {
+												gt = append(gt, k)
+											}
+										}
+									}
+								}
+							}
 						}
 					}
 				case *ssa.MakeSlice:
